@@ -301,13 +301,16 @@ func VerifMiddleware(n int) {
 // (output was lost), whatever the chunking of the handler's writes.
 func VerifResponseWriterFault(n int) {
 	in := verifC12Input(n)
+	fails := false // the stub minifier fails on a 'z'
 	for _, c := range in {
-		vAssume(c != 'z')
+		if c == 'z' {
+			fails = true
+		}
 	}
 	m := New()
 	m.AddFunc("text/css", verifC12Stub)
 	rw := &vRespWriter{h: http.Header{}}
-	rw.failFrom = 1 + vChoice("failfrom", 2)
+	rw.failFrom = vChoice("failfrom", 3) // 0: the underlying writer never fails
 	// net/http's package initialisation is not executed by the engine: give its sentinel errors an identity there
 	if http.ErrBodyNotAllowed == nil {
 		http.ErrBodyNotAllowed = &vError{s: "http: request method or response status code does not allow body"}
@@ -340,6 +343,9 @@ func VerifResponseWriterFault(n int) {
 	vOutput("body", rw.body)
 	if rw.failed {
 		vAssert(werr != nil || cerr != nil, "response writer: a failing underlying writer is reported by Write or Close")
+	}
+	if fails && rw.h.Get("Content-Type") == "text/css" {
+		vAssert(werr != nil || cerr != nil, "response writer: the minifier's error is delivered by the time Close returns")
 	}
 	vReach("end")
 }
